@@ -218,7 +218,7 @@ func (t *T) RT() reflect.Type {
 		case KStruct:
 			sf := make([]reflect.StructField, len(t.Fields))
 			for i, f := range t.Fields {
-				sf[i] = reflect.StructField{Name: f.Go, Type: f.T.RT(), Tag: f.Tag()}
+				sf[i] = reflect.StructField{Name: f.Go, Type: f.T.RT(), Tag: f.Tag(), Anonymous: f.Embedded}
 				if f.Excl == ExclUnexported {
 					sf[i].PkgPath = "verifharness/gen"
 				}
